@@ -24,6 +24,10 @@ EXPLANATION = (
     "a fresh subkey. MPI-1/2: every collective is unconditional w.r.t. the rank, the comb runs on the root "
     "over the gathered buffer, each Gather is matched by a Scatter into a buffer shaped like the send "
     "buffer. BIND-5: the single-process stub offers every communicator method used, with copy semantics."
+    "PAIR-1: the comb gathers from a buffer that its own copy loop does not store into (an in-place comb "
+    "re-reads slots it has already overwritten). SIB-1: the offset handed to the comb is one scalar "
+    "uniform draw (shape ()), not a vector. Comb positions computed for all teeth at once (a "
+    "comprehension handed to one searchsorted) and buffers kept in a dict are read as the same comb. "
 )
 NOT_DECIDED = (
     "floor/ceil selection counts and exact unbiasedness over the offset (mathematical consequences of the "
